@@ -56,6 +56,11 @@ type Config struct {
 	LongLits bool
 	// BigClasses allows character classes listing nine to sixteen single characters.
 	BigClasses bool
+	// TopLoop puts a new first rule `Top <- ( . Start? )*` (with an action when
+	// Actions is set) in front of the grammar, so that an input of n characters
+	// makes the parser run for at least n rounds: long parses with thousands of
+	// code-block events out of small grammars (not with LeftRec).
+	TopLoop bool
 	// Wide draws terminals from a wider alphabet (letters whose case mapping
 	// leaves ASCII, digits, punctuation) and the usual wide ranges; tool world
 	// only, where no input has to match.
@@ -547,6 +552,14 @@ func Generate(r Rand, cfg Config) *Grammar {
 			}
 			g.Rules[0].Expr = &Expr{Kind: Seq, Subs: []*Expr{loop, g.Rules[0].Expr}}
 		}
+		if cfg.TopLoop && !cfg.LeftRec {
+			unit := &Expr{Kind: Seq, Subs: []*Expr{{Kind: Any}, {Kind: Opt, Subs: []*Expr{{Kind: Ref, Name: g.Rules[0].Name}}}}}
+			if cfg.Actions {
+				unit = &Expr{Kind: Action, Subs: []*Expr{unit}}
+			}
+			top := &Rule{Name: "Top", Expr: &Expr{Kind: Star, Subs: []*Expr{unit}}}
+			g.Rules = append([]*Rule{top}, g.Rules...)
+		}
 		g.Finish()
 		if cfg.LeftRec || cfg.FreeRefs {
 			return g
@@ -896,6 +909,26 @@ func (g *Grammar) SampleInput(r Rand, maxLen int) []byte {
 		// never cut a multi-byte rune in two
 		for len(b) > 0 && !utf8.Valid(b) {
 			b = b[:len(b)-1]
+		}
+	}
+	return b
+}
+
+// IsTopLoop reports whether the grammar was made with Config.TopLoop.
+func (g *Grammar) IsTopLoop() bool {
+	return len(g.Rules) > 1 && g.Rules[0].Name == "Top" && g.Rules[0].Expr.Kind == Star
+}
+
+// SampleLongInput makes an input of the given number of rounds for a grammar
+// made with Config.TopLoop: one character per round, sometimes followed by
+// something the old start rule is likely to match.
+func (g *Grammar) SampleLongInput(r Rand, rounds int) []byte {
+	sub := &Grammar{Rules: g.Rules[1:]}
+	var b []byte
+	for i := 0; i < rounds; i++ {
+		b = append(b, string(uniAlphabet[r.Intn(len(uniAlphabet))])...)
+		if r.Intn(3) == 0 {
+			b = append(b, sub.SampleInput(r, 12)...)
 		}
 	}
 	return b
